@@ -190,7 +190,22 @@ def bool_edges(f, pred, want_true):
     return out
 
 
+def _is_req_ack(x):
+    x = peel(x)
+    return is_call(x, r"TcpPacket::<'a>::get_acknowledgement$") and peel(x[2][0]) == ('param', 1)
+
+
 def is_ack_minus_one(f, e):
+    # ack.checked_sub(1).unwrap_or(0xFFFFFFFF)
+    e1 = peel(e, unwraps=False)
+    if is_call(e1, r'Option::<[^>]*>::unwrap_or$') and const_val(e1[2][1]) == 0xFFFFFFFF:
+        c_ = peel(e1[2][0], unwraps=False)
+        if is_call(c_, r'<impl u32>::checked_sub$') and _is_req_ack(c_[2][0]) and const_val(c_[2][1]) == 1:
+            return True
+    return _is_ack_minus_one(f, e)
+
+
+def _is_ack_minus_one(f, e):
     """e is the request's acknowledgement number minus one (mod 2^32): either wrapping_sub(ack,1) or the
     guarded form `if ack > 0 { ack - 1 } else { 0xFFFFFFFF }`."""
     def is_ack(x):
@@ -817,3 +832,101 @@ def deep_calls(F, f, e, name_re, depth=0):
                 for v in rv:
                     out += [o for o in deep_calls(F, g, v, name_re, depth + 1) if o[0] is not g]
     return out
+
+
+GROW_ONLY = r'Vec::<[^>]*>::(push|extend_from_slice|append|insert|resize|reserve)$|Extend<[^>]*>>::extend$|Extend::extend$'
+
+
+def buf_segments_at(f, bi, argi):
+    """buf_segments of the argi-th argument of the call in block bi; when the argument is a Vec local that was
+    allocated and then appended to (let mut b = vec![0; n]; b.extend_from_slice(x); f(b)), the allocation followed by
+    the appends that are executed on every path to the call.  None when the construction cannot be read."""
+    e = f.argv(bi, argi)
+    pe = peel(e, unwraps=False)
+    if not (isinstance(pe, tuple) and pe[0] == 'phi'):
+        return buf_segments(e)
+    base = [a for a in pe[1] if not (isinstance(a, tuple) and a[0] == 'modby')]
+    mods = [a for a in pe[1] if isinstance(a, tuple) and a[0] == 'modby']
+    if len(base) != 1 or not mods or not all(re.search(GROW_ONLY, m[1]) for m in mods):
+        return None
+    op = f.blocks[bi]['term']['args'][argi]
+    if op['k'] not in ('copy', 'move') or op['place']['p']:
+        return None
+    from vlib.layout import vec_layout
+    L = op['place']['l']
+    names = {L}
+    for _ in range(4):
+        ds = [st['rv'] for blk in f.blocks if not blk['cleanup'] for st in blk['stmts'] if not st['lhs']['p'] and st['lhs']['l'] == L]
+        calls_def = [1 for blk in f.blocks if not blk['cleanup'] and blk['term']['k'] == 'call' and not blk['term']['dest']['p'] and blk['term']['dest']['l'] == L]
+        if len(ds) == 1 and not calls_def and ds[0]['k'] == 'use' and ds[0]['a']['k'] == 'move' and not ds[0]['a']['place']['p']:
+            L = ds[0]['a']['place']['l']
+            names.add(L)
+        else:
+            break
+    items = vec_layout(f, target_pred=lambda recv: isinstance(recv, tuple) and recv[0] == 'local' and recv[1] in names, must_targets=[bi])
+    segs = buf_segments(base[0])
+    for it in items:
+        if bi not in f.reachable(it['block']):
+            continue
+        if not it['must'] or it['in_loop']:
+            return None
+        segs = segs + [('data', it['value'])]
+    return segs
+
+
+def value_required_at(f, blocks, keypred, allowed):
+    """Path-sensitive gate: on every path state that reaches each of `blocks` a scalar with keypred(key) was
+    established to equal one of `allowed` (whatever the spelling of the test, and also when the test sits in an
+    inlined bool helper).  -> (ok, detail)"""
+    blocks = list(blocks)
+    if not blocks:
+        return False, 'no target'
+    at = path_states_at(f, blocks, lambda k: True)
+    n = bad = 0
+    for b in blocks:
+        if not at[b]:
+            return False, 'target unreachable in the simulation'
+        for fs in at[b]:
+            n += 1
+            if not any(_try(lambda k_, _: keypred(k_), k, None) and r_ == '==' and c_ in allowed for (k, r_, c_) in fs):
+                bad += 1
+    return bad == 0, '%d of %d path states reach it without the test' % (bad, n)
+
+
+def closure_true_paths(F, cid):
+    """fact sets of the path states on which a bool closure may return true (the predicate of any / filter / position)"""
+    g = F.fn(cid)
+    _, exits = fact_sim(g, lambda k: True)
+    out = []
+    for (bi, (flags, facts)) in exits:
+        rv = [c_ for (k, r_, c_) in facts if k == ('local', 0) and r_ == '==']
+        if rv and rv[0] == 0:
+            continue
+        if not rv:
+            # returned value not a path constant: take what is known about it from the returned expression
+            b = _bindings(flags).get(0)
+            if b is not None:
+                facts = frozenset(set(facts) | {(b, '!=', 0)})
+        out.append(facts)
+    return out
+
+
+def exists_element_with(F, f, facts, check):
+    """the path facts say that Iterator::any(<collection>, closure) is true and every way the closure can return true
+    satisfies check(closure_facts): 'some element satisfies ...'.  -> the collection expression or None"""
+    for (k, r_, c_) in facts:
+        kk = peel(k, unwraps=False)
+        if not is_call(kk, r'Iterator>::any$|Iterator::any$'):
+            continue
+        if not ((r_ == '!=' and c_ == 0) or (r_ == '==' and c_ == 1)):
+            continue
+        cl = [x for x in walk(kk[2][1]) if isinstance(x, tuple) and x[0] == 'agg' and str(x[1]).startswith('closure:')]
+        if len(cl) != 1:
+            continue
+        cid = cl[0][1][len('closure:'):]
+        if cid not in F.fns:
+            continue
+        tp = closure_true_paths(F, cid)
+        if tp and all(check(fs) for fs in tp):
+            return kk[2][0]
+    return None
